@@ -395,16 +395,20 @@ fn schema_all() -> Vec<KsD> {
 /// the implementation's own range list); from every reachable set every one of the 28 inserts is
 /// tried, followed by a maintenance step removing node 1 and a re-insert. One line per
 /// (reachable set, insert).
-fn gen_exhaustive(out: &mut Out, limit_states: usize) -> (usize, usize) {
+fn gen_exhaustive(out: &mut Out, thorough: bool) -> (usize, usize) {
+    // thorough: a 10-point universe (two more interior points), 45 inserts, 4181 reachable sets
+    let p10: [i64; 10] = [i64::MIN, i64::MIN + 1, -1, 0, 1, 5, 6, 100, i64::MAX - 1, i64::MAX];
+    let pts: &[i64] = if thorough { &p10 } else { &P8 };
+    let np = pts.len();
     let known = vec![nd(1, 0, Some(0)), nd(2, 0, Some(1))];
     let mut letters: Vec<Op> = Vec::new();
-    for i in 0..8 {
-        for j in (i + 1)..8 {
+    for i in 0..np {
+        for j in (i + 1)..np {
             letters.push(Op::Learn {
                 ks: 1,
                 tb: 1,
-                a: P8[i],
-                b: P8[j],
+                a: pts[i],
+                b: pts[j],
                 raw: vec![(((i + j) % 2 + 1) as u128, ((i * 8 + j) % 5) as i32)],
                 known: known.clone(),
             });
@@ -423,13 +427,17 @@ fn gen_exhaustive(out: &mut Out, limit_states: usize) -> (usize, usize) {
             let n_pref = ops.len();
             ops.push(maint.clone());
             ops.push(l.clone());
-            let h = Hist { kind: "Hx", tables: vec![(1, 1)], tokens: Q8.to_vec(), dcs: vec![0, 1], ops };
+            let mut tokens = Q8.to_vec();
+            if thorough {
+                tokens.extend_from_slice(&[99, 100, 101]);
+            }
+            let h = Hist { kind: "Hx", tables: vec![(1, 1)], tokens, dcs: vec![0, 1], ops };
             let (o, ranges) = run_hist(&h);
             out.case(&hist_s(&h), &o);
             lines += 1;
             if ranges.len() >= n_pref {
                 let st = ranges[n_pref - 1].clone();
-                if !seen.contains_key(&st) && seen.len() < limit_states {
+                if !seen.contains_key(&st) {
                     seen.insert(st, ());
                     queue.push_back(h.ops[..n_pref].to_vec());
                 }
@@ -708,7 +716,7 @@ fn main() {
     }
     let thorough = a.tier == "thorough";
     gen_scenarios(&mut out);
-    let (states, lines) = gen_exhaustive(&mut out, if thorough { usize::MAX } else { usize::MAX });
+    let (states, lines) = gen_exhaustive(&mut out, thorough);
     eprintln!("c15: exhaustive part: {} reachable range sets, {} histories", states, lines);
     let short = gen_exhaustive_short(&mut out, if thorough { 4 } else { 3 });
     eprintln!("c15: short exhaustive histories: {}", short);
